@@ -149,6 +149,73 @@ def _add_twins(rng, seed, layout, members, info):
             info["own"].append(tv)
 
 
+def _add_phantoms(rng, members, info, canaries):
+    """7z entries listed as files that own no data stream (more file entries than sub-streams): extractall() never writes them, so their
+    names never pass the write-side join; the read-back must not follow them out of the extraction directory either.  They are listed
+    behind every streamed entry (only then do they belong to no folder).  The names climb out *without* starting with "/" or "..":
+    through "./", through a directory that a streamed helper member makes exist, with over-long chains; the plain forms are there too."""
+    cps = list(canaries)
+    rel = [os.path.relpath(p, RUN_DIR) for p in cps]                  # outside/canary.txt, outside/sub/canary.md, outside/canary.csv
+    chain = "../" * 14
+    helpers = {"sub": "sub/ok.txt", "sub/x": "sub/x/ok.md", "a": "a/readme.txt", "ünï": "ünï/ok.csv"}
+    forms = []
+    for r_, ab in zip(rel, cps):
+        forms += [("", f"./../../{r_}"), ("", f".//../../{r_}"), ("", f"./{chain}{ab.lstrip('/')}"), ("", f"./././../../{r_}"),
+                  ("sub", f"sub/../../../{r_}"), ("sub/x", f"sub/x/../../../../{r_}"), ("a", f"a/./../../../{r_}"), ("ünï", f"ünï/../{chain}{ab.lstrip('/')}"),
+                  ("sub", f"./sub/../../../{r_}"), ("", f"../../{r_}"), ("", ab), ("", f"nodir/../../../{r_}")]
+    forms += [("", f"./{chain}repo/README.md"), ("sub", f"sub/{chain}repo/CHANGELOG.md"), ("", f"./{chain}repo/CHANGELOG.md")]
+    for need, name in rng.sample(forms, rng.randint(1, 3)):
+        if need and not any(m["name"] == helpers[need] for m in members):
+            members.insert(rng.randint(0, len(members)), {"name": helpers[need], "data": b"qh00001z helper member\n", "type": "file"})
+        members.append({"name": name, "data": b"never stored", "type": "file", "phantom": True})
+        info["phantom_escapes"] += 1
+
+
+def _add_dups(rng, seed, fam, members, info, oversize_tok):
+    """Archives that repeat a member name (legal in all three containers; `tar -r` / `tar -u` write them): an ordinary small member and a
+    second entry of the same name that must never produce a result - an oversize regular file, (TAR) a symbolic or hard link to a hidden /
+    __MACOSX/ / unsupported / nested member - or merely other content.  Whatever is yielded under the name, it is never the protected content."""
+    name = rng.choice(["notes.txt", "docs/report.md", "a/b/data.csv", "ünï/文書.txt"])
+    small = {"name": name, "data": f"qs{seed % 100000:05d}z ordinary member\n".encode(), "type": "file"}
+    kinds = ["oversize-regular", "other-content"] + (["symlink-to-protected", "hardlink-to-protected"] * 2 if fam.startswith("tar") else ["symlink-entry"] if fam == "zip" else [])
+    kind = rng.choice(kinds)
+    info["dups"] = kind
+    i = rng.randint(0, len(members))
+    members.insert(i, small)
+    if kind == "oversize-regular":
+        tok = f"qu{seed % 100000:05d}z"
+        dup = {"name": name, "data": tok.encode() + b"\n" + b"0" * (MEMBER_LIMIT + 5) + TAIL_TOKEN.encode() + b"\n", "type": "file"}
+        info["dup_tokens"].append(tok)
+    elif kind == "other-content":
+        dup = {"name": name, "data": f"qw{seed % 100000:05d}z second entry of the name\n".encode(), "type": "file"}
+    elif kind == "symlink-entry":
+        dup = {"name": name, "type": "symlink", "link": "/etc/passwd"}
+    else:
+        cls, tname = rng.choice(PROTECTED)
+        tok = f"qg{seed % 100000:05d}z"
+        body = f"{tok} {cls} member payload\n".encode()
+        if cls == "nested":
+            body = archives.build("zip-stored", [{"name": "x.txt", "data": body}])
+        members.insert(rng.randint(0, i), {"name": tname, "data": body, "type": "file"})      # in front of everything that refers to it
+        i += 1
+        info["dup_tokens"].append(tok)
+        ltype = kind.split("-")[0]
+        dup = {"name": name, "type": ltype, "link": tname if ltype == "hardlink" else posixpath.relpath(tname, posixpath.dirname(name) or ".")}
+    dup["dup"] = True
+    members.insert(rng.randint(i + 1, len(members)) if rng.random() < 0.8 else rng.randint(0, i), dup)
+
+
+def _dedup(members):
+    """Control twin of a duplicate-name archive: the second entry of the name gets a name of its own."""
+    out = []
+    for m in members:
+        if m.get("dup"):
+            d, _, b = m["name"].rpartition("/")
+            m = dict(m, name=(d + "/" if d else "") + "second-" + b)
+        out.append(m)
+    return out
+
+
 def _escapes(name: str) -> bool:
     """Would creating ``name`` below the extraction directory TMP/<x> touch anything outside that directory?"""
     base = os.path.join(TMP, "x")
@@ -169,7 +236,7 @@ def build_case(seed: int, layout: str, focus: str = "names"):
     members = []
     expect_skip = []
     info = {"hostile_dirs": 0, "escaping_dirs": 0, "links_to_protected": 0, "link_tokens": [], "oversize_linked": False, "oversize_form": None, "substreams": True,
-            "prelude": [], "twin_forbidden": [], "own": [], "twins": 0}
+            "prelude": [], "twin_forbidden": [], "own": [], "twins": 0, "phantom_escapes": 0, "dups": None, "dup_tokens": []}
     for i, nm in enumerate(names):
         tok = f"qa{seed % 1000:03d}{i:02d}z"
         data = f"{tok} member payload {i}\n".encode()
@@ -245,6 +312,10 @@ def build_case(seed: int, layout: str, focus: str = "names"):
     rng.shuffle(members)
     if focus == "twins":
         _add_twins(rng, seed, layout, members, info)
+    elif focus == "dups":
+        _add_dups(rng, seed, fam, members, info, oversize_tok)
+    elif focus == "phantoms" and fam == "7z":
+        _add_phantoms(rng, members, info, canaries)
     # link members pointing at members of the archive that must not produce a result, under an innocent supported name
     if fam not in ("7z",) and (focus == "links" or rng.random() < 0.25):
         picks = rng.sample(PROTECTED, rng.randint(1, 3)) + [("visible", "visible-twin.txt")]      # the last one is the control: a link to an ordinary member
@@ -402,6 +473,15 @@ def work(case):
     out["oversize_form"] = info["oversize_form"]
     out["oversize_content_in_results"] = (TAIL_TOKEN in blob) or any(len(t) > MEMBER_LIMIT for t in texts)
     # twins: per archive of the sequence
+    out["phantom_escapes"] = info["phantom_escapes"]
+    out["dups"] = info["dups"]
+    out["dup_protected_in_results"] = [t for t in info["dup_tokens"] if t in blob] if not case.get("mutate") else []
+    out["dups_twin_clean"] = None
+    if info["dups"] and (out["dup_protected_in_results"] or out["oversize_content_in_results"]):
+        # control twin: the same members, the second entry of the name under a name of its own
+        tn, tt = _exhaust(fn, archives.build(layout, _dedup(members), substreams=info["substreams"]), layout)
+        tb = "\n".join(tt) if isinstance(tt, list) else ""
+        out["dups_twin_clean"] = isinstance(tt, list) and TAIL_TOKEN not in tb and not any(len(t) > MEMBER_LIMIT for t in tt) and not any(t in tb for t in info["dup_tokens"])
     out["twins"] = info["twins"]
     out["twin_forbidden_in_results"], out["earlier_archive_content_in_results"], out["history_dependent"] = [], [], None
     if runs and rerun is not None and not case.get("mutate"):
@@ -467,10 +547,10 @@ def gen_cases(run):
     for layout in archives.EXTENDED_LAYOUTS:
         fam = archives.family(layout)
         # r % 5 == 4: byte-mutated archive; otherwise the hostile part is the file names / the directory entries / (TAR, ZIP) link members
-        cycle = ["names", "dirs", "twins", "dirs"] if fam == "7z" else ["names", "links", "dirs", "twins"]
+        cycle = ["names", "dirs", "twins", "phantoms", "dups", "dirs"] if fam == "7z" else ["names", "links", "dirs", "twins", "dups", "links"]
         for r in range(run.n(40, 400) if layout in archives.ALL_LAYOUTS else run.n(12, 120)):      # TAR header formats gnu / ustar: fewer repetitions
             cid += 1
-            focus = "names" if r % 5 == 4 else cycle[(r // 5 + r) % 4]
+            focus = "names" if r % 5 == 4 else cycle[(r * 5 // 4) % 6]
             # twins: a sequence of archives, each consumed to the end (the first one a second time at the end)
             yield {"id": cid, "layout": layout, "seed": run.seed * 100000 + cid, "behaviour": "exhaust" if focus == "twins" else BEHAVIOURS[r % 4], "mutate": r % 5 == 4,
                    "focus": focus}
@@ -507,6 +587,10 @@ def main(run):
             if ob.get(k) and not case["mutate"]:
                 run.count(f"{'7z' if fam == '7z' else 'zip' if fam == 'zip' else 'tar'}_archives_with_{k}")
         run.count("mkdir_events_observed", ob.get("n_mkdir_events", 0))
+        if ob.get("phantom_escapes") and not case["mutate"]:
+            run.count("7z_archives_with_streamless_entries_climbing_out")
+        if ob.get("dups") and not case["mutate"]:
+            run.count(f"{'7z' if fam == '7z' else 'zip' if fam == 'zip' else 'tar'}_archives_with_duplicate_member_names")
         if ob.get("twins") and not case["mutate"]:
             run.count("archive_sequences_with_same_base_name_twins")
         if ob.get("oversize_form") in ("no-substreams", "listed-smaller") and not case["mutate"]:
@@ -516,7 +600,12 @@ def main(run):
         armed_with_events += 1 if ob["n_events"] else 0
         seen = set()
 
-        def v(sym, detail, feat="hostile-names"):
+        feat0 = {"phantoms": "streamless-entries-with-climbing-names", "dups": "duplicate-member-names"}.get(focus, "hostile-names")
+        if focus == "dups" and ob.get("dups_twin_clean") is False:
+            feat0 = "hostile-names"         # the twin with unique names misbehaves as well: not a matter of the repeated name
+
+        def v(sym, detail, feat=None):
+            feat = feat or feat0
             key = f"C09:{lc}:{'mutated' if case['mutate'] else feat}:{sym}"
             if key not in seen:
                 seen.add(key)
@@ -545,7 +634,9 @@ def main(run):
         if ob["oversize_content_in_results"]:
             forged = ob["oversize_form"] in ("no-substreams", "listed-smaller")
             v("oversize-member-produced-result", "a result carries content that lies behind the 10 MiB per-member limit" + (f" (7z folder of one file, size listing: {ob['oversize_form']})" if forged else ""),
-              "oversize-member-listed-smaller" if forged else "link-to-protected-member" if ob["oversize_linked"] else "hostile-names")
+              "oversize-member-listed-smaller" if forged else "link-to-protected-member" if ob["oversize_linked"] and focus != "dups" else None)
+        if ob["dup_protected_in_results"] and not ob["oversize_content_in_results"]:
+            v("hidden-or-unsupported-member-produced-result", f"tokens {ob['dup_protected_in_results'][:3]}: content of a protected member came out through a second entry ({ob['dups']}) of an ordinary member's name")
         if ob["twin_forbidden_in_results"]:
             v("hidden-or-unsupported-member-produced-result", f"tokens {ob['twin_forbidden_in_results'][:3]} of __MACOSX/ members whose base name equals that of an ordinary member (same archive or an archive "
               "processed earlier by the same process) are in the results", "same-base-name-twins")
@@ -568,7 +659,8 @@ def main(run):
     # the new families must really have been processed (not lost as unbuildable / died), and the monitor must have seen directory creation at all
     for k, lo in (("7z_archives_with_escaping_dirs", run.n(150, 1500)), ("zip_archives_with_escaping_dirs", run.n(10, 100)), ("tar_archives_with_escaping_dirs", run.n(30, 300)),
                   ("tar_archives_with_links_to_protected", run.n(40, 400)), ("mkdir_events_observed", run.n(500, 5000)),
-                  ("archive_sequences_with_same_base_name_twins", run.n(100, 1000)), ("7z_archives_with_oversize_member_listed_smaller", run.n(8, 80))):
+                  ("archive_sequences_with_same_base_name_twins", run.n(80, 800)), ("7z_archives_with_streamless_entries_climbing_out", run.n(60, 600)),
+                  ("7z_archives_with_duplicate_member_names", run.n(60, 600)), ("tar_archives_with_duplicate_member_names", run.n(30, 300)), ("zip_archives_with_duplicate_member_names", run.n(6, 60)), ("7z_archives_with_oversize_member_listed_smaller", run.n(8, 80))):
         run.require(k, run.counters.get(k, 0), lo)
 
 
